@@ -59,7 +59,8 @@ PROVED = ('For every start-up script, every peer start state and every interleav
           'dongle shared by several instances and scans every SEND_PACKET leaves tuned to its own instance\'s setting, for all '
           'command histories; the cached-tuple variant is refuted. Round 6: with a fresh result per transfer every instance reads '
           'exactly the answers of its own transfers in order under every interleaving; a result cell shared per dongle is refuted. Wave 12: the statistics update run inside the radio loop never raises '
-          '(HEAD guard structure), the unguarded report is refuted.')
+          '(HEAD guard structure), the unguarded report is refuted. Wave 13: the frame is the whole packet (header :: payload, up to 31 bytes); '
+          'truncation at 30 bytes of frame is refuted.')
 NOT_PROVED = ('No guarantee when the negotiation is not confirmed but the peer enabled safelink (two generals) nor after an '
               'exception of radio.send_packet (refuted by witness). Not modelled: wall-clock time, pause()/restart(), rate '
               'limiting and relaxation sleeps, the shared-radio multiplexing thread, rate/RSSI/congestion statistics (only '
@@ -239,6 +240,22 @@ def _fw_hdr(rng):
             return h
 
 
+MAX_UP = 30      # CRTPPacket.MAX_DATA_SIZE: payload bytes of an uplink packet (the frame is header + payload: 31 bytes)
+MAX_DN = 31      # an ESB ack payload is at most 32 bytes: header + 31
+
+
+def _payload(rng, maximum):
+    """payload lengths: mostly short, the maximum itself often (boundary), the rest anywhere in 0..maximum"""
+    r = rng.random()
+    n = rng.randrange(0, 6) if r < 0.5 else maximum if r < 0.72 else maximum - 1 if r < 0.78 else rng.randrange(0, maximum + 1)
+    return [rng.randrange(256) for _ in range(n)]
+
+
+def _full(first, n):
+    """a recognisable payload of exactly n bytes starting with `first`"""
+    return (list(first) + [(7 * j + 3) & 0xff for j in range(n)])[:n]
+
+
 SUB_PATTERNS = ('every', 'alt', 'burst')
 DN_PATTERNS = ('every', 'alt', 'burst')
 
@@ -253,12 +270,12 @@ def enum_case(script, sp, dp, recv, serial):
     def sub():
         nonlocal ns
         ns += 1
-        return ['S', ((ns * 5 % 15) << 4) | 0x0c | (ns % 3), [ns, serial & 0xff]]
+        return ['S', ((ns * 5 % 15) << 4) | 0x0c | (ns % 3), _full([ns, serial & 0xff], MAX_UP if (ns + serial) % 3 == 0 else 2)]
 
     def que():
         nonlocal nq
         nq += 1
-        return ['Q', ((nq * 3 % 15) << 4) | ((nq & 3) << 2) | (nq % 3), [0x40 + nq]]
+        return ['Q', ((nq * 3 % 15) << 4) | ((nq & 3) << 2) | (nq % 3), _full([0x40 + nq], MAX_DN if (nq + serial) % 3 == 1 else 1)]
     for i, o in enumerate(script):
         if sp == 'every' or (sp == 'alt' and i % 2 == 0):
             evs.append(sub())
@@ -306,7 +323,7 @@ def random_case(rng, maxlen):
     else:
         negs = ['U'] * rng.randrange(8, 12) + ['O']          # success on the 9th/10th attempt, or never
     p0 = {'on': rng.randrange(2), 'up': rng.randrange(2), 'down': rng.randrange(2),
-          'txq': [[_fw_hdr(rng)] + [rng.randrange(256) for _ in range(rng.randrange(0, 4))]
+          'txq': [[_fw_hdr(rng)] + _payload(rng, MAX_DN)
                   for _ in range(rng.randrange(0, 3))],
           'last': None if rng.random() < 0.7 else [_fw_hdr(rng), 1]}
     evs = []
@@ -316,9 +333,9 @@ def random_case(rng, maxlen):
         r = rng.random()
         if r < 0.22:
             kind_s = 'ST' if api and rng.random() < 0.4 else 'S'
-            evs.append([kind_s, _app_hdr(rng), [rng.randrange(256) for _ in range(rng.randrange(0, 6))]])
+            evs.append([kind_s, _app_hdr(rng), _payload(rng, MAX_UP)])
         elif r < 0.40:
-            evs.append(['Q', _fw_hdr(rng), [rng.randrange(256) for _ in range(rng.randrange(0, 6))]])
+            evs.append(['Q', _fw_hdr(rng), _payload(rng, MAX_DN)])
         elif r < 0.52:
             evs.append(['RW', rng.choice([0, -1, -2, 1, 3])] if api and rng.random() < 0.6 else ['R'])
         elif api and r < 0.57:
@@ -349,7 +366,7 @@ def host_case(rng, maxlen):
         st = 0x01 | (rng.randrange(4) << 4) | (rng.randrange(2) << 1)
         if r < 0.40:
             return [st]                                        # acknowledged, empty payload
-        return [st, rng.randrange(256)] + [rng.randrange(256) for _ in range(rng.randrange(0, 4))]
+        return [st, rng.randrange(256)] + _payload(rng, MAX_DN)
     kind = rng.random()
     negs = []
     for _ in range(rng.randrange(0, 11)):
@@ -368,7 +385,7 @@ def host_case(rng, maxlen):
     for _ in range(rng.randrange(3, maxlen + 1)):
         r = rng.random()
         if r < 0.25:
-            evs.append(['S', rng.randrange(256), [rng.randrange(256) for _ in range(rng.randrange(0, 5))]])
+            evs.append(['S', rng.randrange(256), _payload(rng, MAX_UP)])
         elif r < 0.35:
             evs.append(['R'])
         elif r < 0.38:
@@ -379,7 +396,7 @@ def host_case(rng, maxlen):
         elif r < 0.46:
             evs.append(['E'])
         elif r < 0.50:
-            evs.append(['ST', rng.randrange(256), [rng.randrange(256) for _ in range(rng.randrange(0, 3))]])
+            evs.append(['ST', rng.randrange(256), _payload(rng, MAX_UP)])
         elif r < 0.54:
             evs.append(['RW', rng.choice([0, -1, 2, 7])])
         else:
@@ -419,9 +436,9 @@ def _small_events(rng, n, api=False):
     for i in range(n):
         r = rng.random()
         if r < 0.3:
-            evs.append(['S', _app_hdr(rng), [rng.randrange(256) for _ in range(rng.randrange(0, 4))]])
+            evs.append(['S', _app_hdr(rng), _payload(rng, MAX_UP)])
         elif r < 0.45:
-            evs.append(['Q', _fw_hdr(rng), [rng.randrange(256) for _ in range(rng.randrange(0, 4))]])
+            evs.append(['Q', _fw_hdr(rng), _payload(rng, MAX_DN)])
         elif r < 0.55:
             evs.append(['R'])
         else:
@@ -462,9 +479,9 @@ def shared_case(rng, maxlen):
     for i in range(rng.randrange(4, maxlen + 1)):
         r = rng.random()
         if r < 0.2:
-            evs.append(['S', _app_hdr(rng), [rng.randrange(256) for _ in range(rng.randrange(0, 4))]])
+            evs.append(['S', _app_hdr(rng), _payload(rng, MAX_UP)])
         elif r < 0.3:
-            evs.append(['Q', _fw_hdr(rng), [rng.randrange(256) for _ in range(rng.randrange(0, 4))]])
+            evs.append(['Q', _fw_hdr(rng), _payload(rng, MAX_DN)])
         elif r < 0.38:
             evs.append(['R'])
         elif r < 0.44:
@@ -490,7 +507,7 @@ def shared_cases(ctx):
     # the smallest histories: one accepted packet, one scan of each kind / one frame of link B, before and after it
     for side in (['SC', None], ['SS', ['radio://0/33/250K', 'radio://0/125/2M']], ['BS', [0x5c, 1, 2]], ['SC', 0xE7E7E7E702]):
         for pos in (0, 1, 2):
-            evs = [['S', 0x3c, [1]], ['T', 'O', []], ['S', 0x4d, [2]]]
+            evs = [['S', 0x3c, _full([1], MAX_UP)], ['T', 'O', []], ['S', 0x4d, [2]]]
             evs.insert(pos, list(side))
             out.append({'shared': 1, 'N': 3, 'p0': dict(P0_STD), 'negs': ['O'], 'evs': evs + [['D']], 'family': 'shared'})
     out += [shared_case(ctx.rng, ctx.scale(30, 80)) for _ in range(ctx.scale(25, 400))]
@@ -577,10 +594,10 @@ def _pair_script(rng, n, mark):
         r = rng.random()
         if r < 0.3:
             ns += 1
-            evs.append(['S', _app_hdr(rng), [mark, ns & 0xff]])
+            evs.append(['S', _app_hdr(rng), _full([mark, ns & 0xff], MAX_UP if rng.random() < 0.25 else 2)])
         elif r < 0.5:
             nq += 1
-            evs.append(['Q', _fw_hdr(rng), [mark ^ 0x0f, nq & 0xff]])
+            evs.append(['Q', _fw_hdr(rng), _full([mark ^ 0x0f, nq & 0xff], MAX_DN if rng.random() < 0.25 else 2)])
         elif r < 0.6:
             evs.append(['R'])
         else:
@@ -593,7 +610,7 @@ def pair_cases(ctx):
     who moves between the hand-over points (about to transfer / holds the answer, not yet looked at)"""
     rng = ctx.rng
     out = []
-    small_a = [['S', 0x3c, [0xa1, 1]], ['Q', 0x50, [0xae, 1]], ['T', 'O', []], ['D']]
+    small_a = [['S', 0x3c, _full([0xa1, 1], MAX_UP)], ['Q', 0x50, _full([0xae, 1], MAX_DN)], ['T', 'O', []], ['D']]
     small_b = [['S', 0x4c, [0xb1, 1]], ['Q', 0x60, [0xbe, 1]], ['T', 'A', []], ['D']]
     # B's complete transfer placed inside each of A's first windows (and vice versa)
     for sched in ('aabbb' * 6, 'bbaaa' * 6, 'ab' * 20, 'aabb' * 10, 'abbba' * 8, 'a' * 7 + 'b' * 7 + 'aabbb' * 5):
@@ -659,9 +676,9 @@ def idle_case(rng, maxlen):
     for _ in range(rng.randrange(3, maxlen + 1)):
         r = rng.random()
         if r < 0.15:
-            evs.append(['S', _app_hdr(rng), [rng.randrange(256) for _ in range(rng.randrange(0, 4))]])
+            evs.append(['S', _app_hdr(rng), _payload(rng, MAX_UP)])
         elif r < 0.27:
-            evs.append(['Q', _fw_hdr(rng), [rng.randrange(256) for _ in range(rng.randrange(0, 4))]])
+            evs.append(['Q', _fw_hdr(rng), _payload(rng, MAX_DN)])
         elif r < 0.35:
             evs.append(['R'])
         elif r < 0.55:
@@ -678,7 +695,7 @@ def idle_cases(ctx):
     for dt in IDLE_DTS:                      # the smallest: one acknowledged empty answer, an idle phase, another one
         for pre in ([], [['Q', 0x50, [1]], ['T', 'O', []]]):
             out.append({'N': 3, 'p0': dict(P0_STD, empty_idle=1), 'negs': ['O'], 'family': 'idle',
-                        'evs': pre + [['T', 'O', []], ['I', dt], ['T', 'O', []], ['S', 0x3c, [1]], ['T', 'U', []], ['D']]})
+                        'evs': pre + [['T', 'O', []], ['I', dt], ['T', 'O', []], ['S', 0x3c, _full([1], MAX_UP)], ['T', 'U', []], ['D']]})
     out += [idle_case(ctx.rng, ctx.scale(40, 100)) for _ in range(ctx.scale(40, 600))]
     return out
 
@@ -707,6 +724,23 @@ def host_replay_term(case, sim):
                                                  _b(case.get('close')))
 
 
+def length_cases(ctx):
+    """every uplink payload length 0..30 and every downlink payload length 0..31, each under the loss patterns
+    O, UO, AO, UAO of its first transmission(s) (the frame is re-stamped and re-sent: the bytes must survive that)"""
+    out = []
+    for n in range(0, MAX_DN + 1):
+        for pat in ('O', 'UO', 'AO', 'UAO') if n in (0, 1, 29, 30, 31) or ctx.thorough else ('UAO',):
+            evs = []
+            if n <= MAX_UP:
+                evs.append(['S', 0x3c | ((n % 14) << 4) & 0xf0, _full([n], n)])
+            evs.append(['Q', 0x10 + n, _full([0x80 | n], n)])
+            evs.append(['T', 'O', []])             # loads the packet into dataOut
+            evs += [['T', o, []] for o in pat]
+            evs.append(['D'])
+            out.append({'N': 5, 'p0': dict(P0_STD), 'negs': ['O'], 'evs': evs, 'family': 'length'})
+    return out
+
+
 def corpus_cases():
     import glob
     import json
@@ -728,6 +762,7 @@ def all_cases(ctx):
     cs += multi_cases(ctx)
     cs += shared_cases(ctx)
     cs += idle_cases(ctx)
+    cs += length_cases(ctx)
     return cs
 
 
@@ -773,7 +808,7 @@ def tie(ctx):
     res = results(ctx)
     dis = []
     terms, exp, idx = [], [], []
-    dist = {'enum': 0, 'random': 0, 'host': 0, 'corpus': 0, 'multi': 0, 'threaded': 0, 'shared': 0, 'idle': 0, 'transmissions': 0, 'lost': 0, 'not_confirmed': 0,
+    dist = {'enum': 0, 'random': 0, 'host': 0, 'corpus': 0, 'multi': 0, 'threaded': 0, 'shared': 0, 'idle': 0, 'length': 0, 'transmissions': 0, 'lost': 0, 'not_confirmed': 0,
             'link_errors': 0, 'max_events': 0}
     seen = set()
     nontriv = 0
@@ -1212,10 +1247,6 @@ def oracle(ctx, deep=False):
     fails = []
     seen = set()
     n = n_stat + n_cmd + n_pair
-    for f in pair_fails:
-        if f['class'] not in seen:
-            seen.add(f['class'])
-            fails.append(_shrink_pair(f))
     if cmd_fail:
         small = _shrink_cmds(cmd_fail[0])
         seen.add('send_on_wrong_tuning')
@@ -1251,6 +1282,10 @@ def oracle(ctx, deep=False):
                         f = dict(f, case={k: v for k, v in small.items() if k != 'family'},
                                  observed=traceback.format_exc()[-600:])
             fails.append(f)
+    for f in pair_fails:                     # two-link histories last: a single-link input for the same class is simpler
+        if f['class'] not in seen:
+            seen.add(f['class'])
+            fails.append(_shrink_pair(f))
     return {'evaluations': n, 'failures': fails,
             'rule': 'on every scripted session of the real loop: accepted == received-by-peer (+ <= 2 pending, none after the '
                     'drain), queued == received-by-application (+ pending), error callback exactly at the N-th consecutive '
